@@ -8,6 +8,9 @@ import subprocess
 ROOT = os.path.dirname(os.path.dirname(os.path.abspath(__file__)))
 # subject prefix of the fix: commit -> (properties, what failed before the repair, how the checks showed it)
 FIXED = {
+    'fix: SSTable iterator Next on a fresh iterator deadlocked': (['C11', 'C07'], 'the first Next() on an iterator from Reader.NewIterator() never returned (re-locks its own mutex)', 'C11 replay: 294 generated cursor programs that start with Next hang'),
+    'fix: validate the stored bloom filter header': (['C11'], 'one altered byte in a bloom filter size field made OpenReader die with an out-of-memory fatal error / makeslice panic instead of an error', 'C11 corruption sweep'),
+    'fix: an entry with the empty key made a whole SSTable unreadable': (['C11', 'C01'], 'block.Iterator.Valid() demanded a non-empty key: a table holding the empty key iterated 0 entries and found nothing', 'C11 replay, byte shape empty-first-key'),
     'fix: reject a NaN or infinite compaction ratio': (['C20'], 'Validate accepted NaN/+Inf CompactionRatio, SaveManifest then failed in json.Marshal after creating the directory', 'C20 field product: validate mismatch (nan), save mismatch (pinf)'),
     'fix: hand the WAL sequence counter over': (['C01', 'C08'], 'a put after flush re-used sequence numbers from 1: stale read of the pre-flush value, storage_last_sequence fell', 'C01/C08 replay: get/seq mismatch at the first write after a flush'),
     'fix: give every memtable entry of a batch': (['C01', 'C08', 'C03'], 'memtable numbered batch entries start+i while the log consumed one number: a put right after an n-key commit read stale until restart', 'C01/C08 replay: seq mismatch after commit, get mismatch on the following put'),
